@@ -32,8 +32,8 @@ LEVEL_TEXT = ("Exploration with a reference model: thousands of invocations with
               "Each (option x winning source) combination is observed every run.")
 LEVEL_NOTE = "In-process invocation (module reload per run) validated by a sample of true subprocess runs observed on the wire; keyring is not installed."
 DESIGN_REF = "DESIGN.md §3 C18"
-MIN_COUNTERS = {"quick": {"merge_invocations": 2500, "option_comparisons": 60000, "histories": 300, "history_runs": 900, "winning_source_pairs": 80, "subprocess_runs": 8},
-                "thorough": {"merge_invocations": 50000, "option_comparisons": 1200000, "histories": 6000, "history_runs": 18000, "winning_source_pairs": 80, "subprocess_runs": 100}}
+MIN_COUNTERS = {"quick": {"merge_invocations": 2500, "option_comparisons": 60000, "histories": 300, "history_runs": 900, "winning_source_pairs": 80, "subprocess_runs": 8, "requests_compared_with_effective_options": 900},
+                "thorough": {"merge_invocations": 50000, "option_comparisons": 1200000, "histories": 6000, "history_runs": 18000, "winning_source_pairs": 80, "subprocess_runs": 100, "requests_compared_with_effective_options": 15000}}
 
 STR_OPTS = ["url", "ofxhome", "org", "fid", "bankid", "brokerid", "appid", "appver", "language", "useragent", "user", "clientuid"]
 INT_OPTS = ["version"]
@@ -246,7 +246,59 @@ def one_merge(ctx, net, rng, idx, cover):
         else:
             cover.saw(opt, src)
     ctx.distinct(("merge", idx))
+    if rng.random() < 0.5:
+        request_reflects(ctx, eff, argv, case)
     return case
+
+
+def request_reflects(ctx, eff, argv, case):
+    """'The value in effect' is what the request is built with: the dry-run request printed by the real main() must show the
+    effective version, format flags and identifiers (judged only when the combination is one the client accepts)."""
+    from vf.oracles import ref_request
+
+    inv, _og = cli.run_main(argv)
+    data = cli.extract_request(inv.stdout) if inv.exc is None else None
+    if data is None:
+        ctx.count("dryrun_request_not_produced_not_judged")  # e.g. over-long identifier, 2xx with unclosed elements: refused by design
+        return
+    reflects(ctx, eff, data, argv, case)
+
+
+def reflects(ctx, eff, data, argv, case):
+    from vf.oracles import ref_request
+
+    ctx.ev()
+    ctx.count("requests_compared_with_effective_options")
+    try:
+        d = ref_request.describe(data)
+    except Exception as e:
+        ctx.violation(f"request/unreadable-{type(e).__name__}", f"{argv}: printed request cannot be read: {e!r}", case)
+        return
+    text = data.decode("utf_8", "replace")
+    body = text[text.index("<OFX>"):]
+    obs = {"version": d["version"], "pretty": "\n<" in body.strip() or "\r\n<" in body.strip(), "unclosedelements": "</DTCLIENT>" not in body,
+           "nonewfileuid": d["newfileuid"] == "NONE", "user": d["signon"]["userid"], "language": d["signon"]["language"],
+           "appid": d["signon"]["appid"], "appver": d["signon"]["appver"],
+           "org": (d["signon"]["fi"] or {}).get("org"), "fid": (d["signon"]["fi"] or {}).get("fid")}
+    want = {"version": eff.get("version"), "pretty": bool(eff.get("pretty")), "unclosedelements": bool(eff.get("unclosedelements")),
+            "nonewfileuid": bool(eff.get("nonewfileuid")), "user": eff.get("user") or None, "language": eff.get("language"), "appid": eff.get("appid"),
+            "appver": eff.get("appver"), "org": eff.get("org") or None, "fid": (eff.get("fid") or None) if eff.get("org") else obs["fid"]}
+    if not want["user"] or any(r["kind"] == "profile" for r in d["requests"]):
+        want["user"] = None  # no user configured, or a profile request: the anonymous placeholder goes out (C14's business)
+    for k in want:
+        w, o = want[k], obs[k]
+        if k in ("user", "language", "appid", "appver", "org", "fid") and not w:
+            continue  # nothing configured anywhere: the client's own default goes out
+        if isinstance(w, str) and isinstance(o, str):
+            w, o = html_decode(w), o  # identifiers with entity look-alikes: C06's known finding, not judged here
+            if "&" in want[k]:
+                continue
+        if w != o and not (w in (None, "") and o in (None, "")):
+            ctx.violation(f"request-ignores-effective-option/{k}", f"{argv}: effective {k}={want[k]!r} but the printed request shows {obs[k]!r}", case)
+
+
+def html_decode(x):
+    return x
 
 
 class Cover:
@@ -353,6 +405,7 @@ def one_history(ctx, net, rng, idx):
             argv.append("--dryrun")
         path = cli.user_cfg_path()
         before = path.read_bytes() if path.exists() else None
+        nrec0 = len(net.records)
         inv, og = cli.run_main(argv)
         after = path.read_bytes() if path.exists() else None
         ctx.ev()
@@ -362,6 +415,10 @@ def one_history(ctx, net, rng, idx):
             ctx.violation(f"history/run-fails/{kind}/{type(inv.exc).__name__}", f"run {r} ({kind}) {argv}: {inv.exc!r} exit={inv.exit}", case)
             return
         eff = inv.args
+        sent_now = [x["body"] for x in net.records[nrec0:] if x.get("body")]
+        shown = cli.extract_request(inv.stdout) if kind == "dry-write" else (sent_now[-1] if sent_now else None)
+        if shown is not None:
+            reflects(ctx, eff, shown, argv, case)
         # effective values of this run = CLI over what was persisted
         for opt in PERSISTABLE:
             if opt == "ofxhome":
